@@ -301,13 +301,22 @@ func (s *server) ModifyColumnFamilies(ctx context.Context, req *btapb.ModifyColu
 			delete(cfs, mod.Id)
 
 			// Purge all data for this column family
+			var emptied []keyType
 			tbl.rows.Ascend(func(r *btpb.Row) bool {
 				r, changed := scrubRow(r, tbl.cols())
 				if changed {
-					tbl.rows.ReplaceOrInsert(r)
+					if len(r.Families) == 0 {
+						emptied = append(emptied, r.Key)
+					} else {
+						tbl.rows.ReplaceOrInsert(r)
+					}
 				}
 				return true
 			})
+			// Rows left without cells are removed (after the iteration, see DropRowRange).
+			for _, k := range emptied {
+				tbl.rows.Delete(k)
+			}
 		} else if modify := mod.GetUpdate(); modify != nil {
 			cf, ok := cfs[mod.Id]
 			if !ok {
